@@ -7,7 +7,7 @@ from .builtins import builtin_commands
 from .containers import CaseInsensitiveDict
 from .deferred import Promise, wait, BaseDeferred, Deferred, SizedDeferred, DeferredCycle
 from .devices import open_device
-from .formats import file_formats
+from .formats import file_formats, ImageTooLarge
 from .metacommand_impl import get_as_int, describe_int
 from . import operators
 from .types import Instruction, Label, Assignment, InstructionPointer, WordList, ParenthesizedExpression, CodeBlock
@@ -378,7 +378,14 @@ class Compiler:
             return False, None
 
         for ctx_start, ctx_end, file_format, filepath, *arguments in self.emitted_files:
-            result = file_formats[file_format](base, code, *arguments)
+            try:
+                result = file_formats[file_format](base, code, *arguments)
+            except ImageTooLarge as ex:
+                reports.error(
+                    "value-out-of-bounds",
+                    (ctx_start, ctx_end, f"Could not produce '{filepath}':\n{ex}")
+                )
+                continue
             try:
                 with open_device(filepath, "wb") as f:
                     f.write(result)
